@@ -93,6 +93,15 @@ func findTableLoop(fn *ssa.Function) *tableLoop {
 		} else {
 			continue
 		}
+		if n == 0 {
+			// a loop over a list known to be empty (no variadic arguments, the nil
+			// alternative of a conditionally assembled list): its condition is false
+			// from the start; folding the branch removes the body
+			replaceOperands(fn, cond, ssa.NewConst(constant.MakeBool(false), cond.Type()))
+			rebuildReferrers(fn)
+			foldConstBranches(fn)
+			return findTableLoop(fn)
+		}
 		if n < 1 || n > maxUnroll {
 			continue
 		}
@@ -410,12 +419,14 @@ func unrollOne(fn *ssa.Function, tl *tableLoop) bool {
 	}
 	// last body's latch edges go to the exit head
 	last := iters[len(iters)-1]
-	lastBody := iters[len(iters)-2]
-	for _, l := range latches {
-		pb := lastBody.bmap[l.b]
-		for si, s := range pb.Succs {
-			if s == nil {
-				pb.Succs[si] = last.head
+	if len(iters) >= 2 {
+		lastBody := iters[len(iters)-2]
+		for _, l := range latches {
+			pb := lastBody.bmap[l.b]
+			for si, s := range pb.Succs {
+				if s == nil {
+					pb.Succs[si] = last.head
+				}
 			}
 		}
 	}
